@@ -624,10 +624,10 @@ class IntegrityChecker(object):
     def check_metadata_bad(self, **kwargs):
         cues = []
         # check for ROI size
-        if ("imaging" in self.ds.config
-                and "roi size x" in self.ds.config["imaging"]
-                and "roi size y" in self.ds.config["imaging"]):
+        if "imaging" in self.ds.config:
             for ii, roi in enumerate(["roi size y", "roi size x"]):
+                if roi not in self.ds.config["imaging"]:
+                    continue
                 for feat in ["image", "image_bg", "mask"]:
                     if feat in self.ds:
                         soll = self.ds[feat].shape[ii+1]
